@@ -8,3 +8,9 @@ func VerifParseRPCName(rpcName string) (svc string, method string, ok bool) {
 	s, m, ok := parseRPCName(rpcName)
 	return string(s), m, ok
 }
+
+// VerifBuildPattern reports whether buildPattern accepts the binding template.
+func VerifBuildPattern(tmpl string) error {
+	_, err := buildPattern(tmpl)
+	return err
+}
